@@ -181,4 +181,37 @@ theorem step_add_r15 (B : Interp.BusOps β) (s s' : St β) (n len : Nat) (hn : n
   rw [Nat.mod_mod, Nat.mod_eq_of_lt (show n < 2 ^ 64 by omega)]
   rfl
 
+set_option maxRecDepth 4000 in
+/-- `add r, n` (64-bit) with a literal `n < 128` adds `n` to the register (mod 2^64) -/
+theorem step_add_q (B : Interp.BusOps β) (s s' : St β) (r n len : Nat) (hr16 : r < 16) (hn : n < 128) (hs : s.r.size = 16)
+    (h : step B s (.aluI .add   .q r [n] true) len = .ok s') : (get s' r).toNat = ((get s r).toNat + n) % 2 ^ 64 := by
+  have htok : ∀ t : St β, tokVal t n = n := by
+    intro t
+    unfold tokVal
+    have h1 : (n == 256) = false := by simp; omega
+    have h2 : (n == 257) = false := by simp; omega
+    simp only [h1, h2, Bool.false_eq_true, if_false]
+    omega
+  have himm : ∀ t : St β, immLE t [n] = n := by
+    intro t; unfold immLE; simp only [List.foldr, htok, Nat.mul_zero, Nat.add_zero]
+  have hlt : ¬ n ≥ 128 := by omega
+  simp only [step, himm, hlt, if_false, if_true, bitsOf, add_ne_cmp, Bool.false_eq_true] at h
+  injection h with h
+  have hr := congrArg St.r h
+  simp only [] at hr
+  unfold get
+  rw [← hr]
+  show (get (setSz ({ s with pc := s.pc + len } : St β) .q r _) r).toNat = _
+  simp only [setSz]
+  rw [get_set_eq _ _ _ (by show r < s.r.size; omega)]
+  rw [BitVec.toNat_ofNat]
+  have ha : (get s r).toNat < 2 ^ 64 := (get s r).isLt
+  have e1 : getSz ({ s with pc := s.pc + len } : St β) .q r = (get s r).toNat := by
+    show (get s r).toNat % 2 ^ 64 = _
+    exact Nat.mod_eq_of_lt ha
+  simp only [aluOp, e1, Nat.add_zero]
+  rw [Nat.mod_mod, Nat.mod_eq_of_lt (show n < 2 ^ 64 by omega)]
+  rfl
+
+
 end GbVerif.X86
